@@ -102,6 +102,35 @@ def run_mutants(prop: str, repo: str, base_keys: set[str], workers: int = 16) ->
             "not_applicable": [r["id"] for r in res if r["status"] == "not-applicable"], "results": res}
 
 
+def run_seeded(prop: str, repo: str, base_keys: set[str], workers: int = 16) -> dict[str, T.Any]:
+    """The independently produced breaking changes under /verif/seeded whose target property is `prop`."""
+    import glob
+
+    seeds = []
+    for mp in sorted(glob.glob(os.path.join(VERIF, "seeded", "*", "meta.json"))):
+        meta = json.load(open(mp))
+        if meta.get("property") == prop and meta.get("valid_mutant"):
+            seeds.append((meta["seed_id"], os.path.join(os.path.dirname(mp), "patch.diff")))
+
+    def one(item: tuple[str, str]) -> dict[str, T.Any]:
+        sid, patch = item
+        tmp = make_copy(repo)
+        try:
+            r = subprocess.run(["patch", "-p1", "-s", "-f", "-i", patch], cwd=tmp, capture_output=True, text=True)
+            if r.returncode != 0:
+                return {"id": sid, "status": "not-applicable"}
+            rc, keys, rules, out = run_check(prop, tmp)
+            new = keys - base_keys
+            return {"id": sid, "status": "fired" if rc == 1 and new else "MISSED", "exit": rc, "rules": sorted(rules)}
+        finally:
+            shutil.rmtree(tmp, ignore_errors=True)
+
+    with ThreadPoolExecutor(workers) as ex:
+        res = list(ex.map(one, seeds))
+    return {"total": len(res), "fired": sum(r["status"] == "fired" for r in res), "missed": [r for r in res if r["status"] == "MISSED"],
+            "not_applicable": [r["id"] for r in res if r["status"] == "not-applicable"], "results": res}
+
+
 def run_neutral(prop: str, repo: str, base_rc: int, base_keys: set[str], workers: int = 16, only: list[str] | None = None) -> dict[str, T.Any]:
     from .neutral import VARIANTS as ALL_VARIANTS
 
@@ -132,7 +161,8 @@ def run_neutral(prop: str, repo: str, base_rc: int, base_keys: set[str], workers
 
 def selftest(prop: str, repo: str) -> dict[str, T.Any]:
     base_rc, base_keys, _, _ = run_check(prop, repo)
-    return {"base_exit": base_rc, "base_keys": len(base_keys), "mutants": run_mutants(prop, repo, base_keys), "neutral": run_neutral(prop, repo, base_rc, base_keys)}
+    return {"base_exit": base_rc, "base_keys": len(base_keys), "mutants": run_mutants(prop, repo, base_keys), "seeded": run_seeded(prop, repo, base_keys),
+            "neutral": run_neutral(prop, repo, base_rc, base_keys)}
 
 
 if __name__ == "__main__":
@@ -151,6 +181,8 @@ if __name__ == "__main__":
         base_rc, base_keys, _, _ = H.run_check(p, repo)
         m = {"fired": 0, "total": 0, "not_applicable": [], "missed": []} if skip_mut else H.run_mutants(p, repo, base_keys)
         n = H.run_neutral(p, repo, base_rc, base_keys, only=only)
+        sd = {"fired": 0, "total": 0, "not_applicable": [], "missed": []} if skip_mut else H.run_seeded(p, repo, base_keys)
+        print(f"{p}: seeded fired {sd['fired']}/{sd['total'] - len(sd['not_applicable'])}" + "".join(f" MISSED-SEED {x['id']}" for x in sd["missed"]))
         print(f"{p}: mutants fired {m['fired']}/{m['total'] - len(m['not_applicable'])} (n/a {len(m['not_applicable'])}); neutral silent {n['silent']}/{n['total'] - len(n['not_applicable'])} (n/a {len(n['not_applicable'])})")
         for x in m["missed"]:
             print(f"    MISSED {x['id']} exit={x['exit']} expected {x['expected_rule']} new={x['new_keys']}")
